@@ -551,6 +551,10 @@ def _explore_chunk(ck: Check, drv: LeanDriver, r, n: int):
             continue
         ck.count(f"family:{fam['kind']}")
         ck.count(f"len:{len(fam['cases'])}")
+        changed = g.constants_changed()
+        if changed:
+            ck.violate({"type": "family", "kind": fam["kind"], "fn_spec": fam["fn_spec"], "base": fam["base"],
+                        "cases": fam["cases"], "sibling": None, "constants": True}, changed)
         base_name, base_cases, base_run = runs[0]
         kinds_seen = set()
         for name, cases, rn in runs:
@@ -617,6 +621,10 @@ def check_case(case: dict):
     a = case["cases"]
     b = case.get("sibling") or a
     try:
+        if case.get("constants"):
+            g.constants_changed()
+            family_violations(case["kind"], case["fn_spec"], case["base"], a, b)
+            return g.constants_changed()
         return family_violations(case["kind"], case["fn_spec"], case["base"], a, b)
     except Infra:
         raise
